@@ -379,6 +379,58 @@ def w_addr_indep(part):
     return acc.res()
 
 
+def w_interleave(part):
+    """re-entrancy under a preemption bound of 1 (engine.interleave): for every callable, a call on one frame is suspended
+    before each of its source lines in turn while a complete call on ANOTHER frame of the same aircraft runs (the same
+    decoder, and the shared low-level helpers icao / crc / typecode), then resumed; both calls must give the answers they
+    give alone.  Every schedule is executed deterministically; scheduling points are the line events inside the package."""
+    from engine import interleave
+    global TABLE
+    if TABLE is None:
+        TABLE = {t[0]: t for t in table()}
+    acc = Acc()
+    acc.cov["schedules"] = 0
+    aa = 0x4840D6
+    # two frames with different field values for every format a decoder may be restricted to
+    frames = related_frames() + [
+        F.short_ap(4, (1 << 24) | (5 << 19) | (6 << 15) | (1 << 13) | 0x1838, aa), F.short_ap(4, (2 << 24) | (17 << 19) | (9 << 15) | (2 << 13) | 0x0C10, aa),
+        F.short_ap(5, (3 << 24) | (4 << 19) | (3 << 15) | (1 << 13) | 0x0AAA, aa), F.short_ap(5, (0 << 24) | (21 << 19) | (12 << 15) | (3 << 13) | 0x1555, aa),
+        F.df11(aa, 5, 0), F.df11(aa, 2, 37), F.short_ap(0, 0x0001838, aa), F.short_ap(0, 0x0600C10, aa),
+        F.long_ap(16, 0x0001838, 0x12345678, aa), F.long_ap(16, 0x0400C10, 0x0FEDCBA9876543, aa),
+        F.long_ap(21, (3 << 24) | 0x0AAA, BR.valid("BDS40")[30], aa), F.long_ap(20, (1 << 24) | 0x0C10, BR.valid("BDS20")[0], aa),
+        F.long_ap(20, 0x0001838, BR.valid("BDS10")[0], aa), F.long_ap(21, 0x0555, BR.valid("BDS17")[1], aa),
+        F.long_ap(20, 0x0001838, BR.valid("BDS44")[50], aa), F.long_ap(20, 0x0001838, BR.valid("BDS45")[20], aa)]
+    names = [(name, extra) for name, f, extras, kind, guard in table() for extra in extras[:1] if name != "tell"]
+    src = loader.SRC
+    for name, extra in names[part::8]:
+        f = TABLE[name][1]
+        iso = [repr(call(f, m, *extra)) for m in frames]
+        ok = [i for i, r in enumerate(iso) if r.startswith("('ok'")]
+        pairs = []
+        for i in ok:
+            for j in ok:
+                if i != j and iso[i] != iso[j]:
+                    pairs.append((i, j))
+        pairs = pairs[:1] + pairs[len(pairs) // 2:len(pairs) // 2 + 1] if pairs else ([(ok[0], ok[-1])] if len(ok) > 1 else [])
+        for i, j in pairs:
+            others = [(f, (frames[j],) + tuple(extra), iso[j]), (pms.icao, (frames[j],), None), (pms.common.crc, (frames[j],), None),
+                      (pms.common.typecode, (frames[j],), None)]
+            for fb, args_b, iso_b in others:
+                if iso_b is None:
+                    iso_b = repr(call(fb, *args_b))
+                res = interleave.explore(f, (frames[i],) + tuple(extra), fb, args_b, src)
+                acc.cov["schedules"] += len(res["schedules"])
+                acc.c["infeasible_schedules"] += res["infeasible"]
+                for k, ra, rb in res["schedules"]:
+                    acc.n += 1
+                    if repr(ra) != iso[i] or repr(rb) != iso_b:
+                        acc.bad("%s:answer_changes_when_another_call_runs_in_between" % name,
+                                {"kind": "interleave", "name": name, "extra": list(extra), "a": frames[i], "b": [getattr(fb, "__name__", "?"), list(args_b)], "preempt_before_line_event": k})
+                        break
+        acc.out.add(("interleave", name))
+    return acc.res()
+
+
 def w_periodic(part):
     """frames made of one octet repeated, or two octets repeated (every first octet, i.e. every DF / CA): totality and
     guards on the most regular bit patterns there are."""
@@ -660,6 +712,8 @@ def w_any(t):
         return w_periodic(t[1])
     if t[0] == "i":
         return w_addr_indep(t[1])
+    if t[0] == "t":
+        return w_interleave(t[1])
     return w_dispatch(None) if t[0] == "d" else w_frames(t[1])
 
 
@@ -676,6 +730,7 @@ def run(ctx):
     tasks += [("a", part) for part in range(4)]
     tasks += [("o", part) for part in range(4)]
     tasks += [("i", part) for part in range(4)]
+    tasks += [("t", part) for part in range(8)]
     tasks += [("k", (tc, part)) for tc in (19, 29, 31, 28, 5, 11, 4) for part in range(4)]
     tasks += [("c", df) for df in ((0, 4, 5, 11, 16, 17, 18, 20, 21, 24) if not ctx.thorough else range(32))]
     ctx.pmap(w_any, tasks)
@@ -693,6 +748,11 @@ def replay(case):
         return [("adsb.%s:%s:breakpoint_latitude" % (case["fn"], r[1] if r[0] == "exc" else "malformed_result"), case)] if bad else []
     if case["kind"] == "again":
         return stateless(case["msg"])
+    if case["kind"] == "interleave":
+        out = []
+        for part in range(8):
+            out += [(s_, c_) for s_, c_ in w_interleave(part)["viols"] if c_.get("name") == case["name"]]
+        return out
     if case["kind"] == "addr_indep":
         out = []
         for part in range(4):
